@@ -35,4 +35,40 @@ theorem domain_linear_spec (a b : ℝ) (n : Nat) (hn : 2 ≤ n) :
     (GenRs.DiscreteDomain_linear a b n).getLast? = some (max a b) := by
   rw [C17T.domain_linear_eq, ofNatS_real]
   exact C17.domLinear_spec a b n hn
+/-! ### `Series1::resampled_x`: the regenerated point count before rounding up -/
+
+/-- the count the code rounds UP is `1 + span / spacing` (model-level reading of the regenerated expression) -/
+theorem resampled_x_count_eq (lo hi sp : ℝ) : GenRs.resampled_x_count lo hi sp = 1 + (hi - lo) / sp := rfl
+
+/-- **Never collapsed.**  For a series of positive span and a positive spacing — however coarse — the rounded-up count
+    is at least 2: both end points survive (a count rounded to the NEAREST integer would be 1 for every spacing
+    above twice the span). -/
+theorem resampled_x_at_least_two_points (lo hi sp : ℝ) (hspan : lo < hi) (hsp : 0 < sp) :
+    (2 : ℤ) ≤ ⌈GenRs.resampled_x_count lo hi sp⌉ := by
+  rw [resampled_x_count_eq]
+  have h : 0 < (hi - lo) / sp := div_pos (sub_pos.mpr hspan) hsp
+  have h1 : (1 : ℝ) < 1 + (hi - lo) / sp := by linarith
+  have : ((1 : ℤ) : ℝ) < 1 + (hi - lo) / sp := by simpa using h1
+  have := Int.lt_ceil.mpr this
+  omega
+
+/-- **Never coarser than asked.**  With `n = ⌈1 + span/spacing⌉` points the step `span / (n − 1)` of `resampled_n`
+    is at most the requested spacing. -/
+theorem resampled_x_step_within_spacing (lo hi sp : ℝ) (hspan : lo < hi) (hsp : 0 < sp) :
+    (hi - lo) / (((⌈GenRs.resampled_x_count lo hi sp⌉ : ℤ) : ℝ) - 1) ≤ sp := by
+  have h2 := resampled_x_at_least_two_points lo hi sp hspan hsp
+  rw [resampled_x_count_eq] at *
+  set n : ℤ := ⌈1 + (hi - lo) / sp⌉ with hn
+  have hle : 1 + (hi - lo) / sp ≤ (n : ℝ) := Int.le_ceil _
+  have hn1 : (0 : ℝ) < (n : ℝ) - 1 := by
+    have : (2 : ℝ) ≤ (n : ℝ) := by exact_mod_cast h2
+    linarith
+  rw [div_le_iff₀ hn1]
+  have : (hi - lo) / sp ≤ (n : ℝ) - 1 := by linarith
+  calc hi - lo = (hi - lo) / sp * sp := by field_simp
+    _ ≤ ((n : ℝ) - 1) * sp := by exact mul_le_mul_of_nonneg_right this hsp.le
+    _ = sp * ((n : ℝ) - 1) := by ring
+
+example : (2 : ℤ) ≤ ⌈GenRs.resampled_x_count 0 1 (10 : ℝ)⌉ := resampled_x_at_least_two_points 0 1 10 (by norm_num) (by norm_num)
+
 end C17U
